@@ -11,29 +11,48 @@ def register(OPS, drv):
     from pygopherd.protocols import ProtocolMultiplexer
     import pygopherd.server as pserver
 
+    class _Stop(BaseException):
+        pass
+
     def op_detect(job):
+        """Classify first lines by driving the REAL connection handler (GopherRequestHandler.handle reads the
+        line and calls ProtocolMultiplexer.getProtocol); the protocol object it gets back is recorded and the
+        request is stopped there.  One long-lived configuration object is re-used and its options are changed
+        between cases, as an administrator's reload would."""
         out = []
-        cfg_cache = {}
-        for c in job["cases"]:
-            key = (c.get("protocols"), c.get("waptop"))
-            if key not in cfg_cache:
-                ov = {}
+        config = drv.make_config("/nonexistent-root")
+        real_get = ProtocolMultiplexer.getProtocol
+        seen = {}
+
+        def recording_get(request, server, requesthandler, rfile, wfile, cfg):
+            p = real_get(request, server, requesthandler, rfile, wfile, cfg)
+            seen["p"] = p
+            seen["line"] = request
+            raise _Stop()
+
+        import pygopherd.server as pserver
+        pserver.ProtocolMultiplexer.getProtocol = recording_get
+        try:
+            for c in job["cases"]:
                 if c.get("protocols"):
-                    ov["protocols.ProtocolMultiplexer"] = {"protocols": c["protocols"]}
+                    config.set("protocols.ProtocolMultiplexer", "protocols", c["protocols"])
                 if c.get("waptop") is not None:
-                    ov["protocols.wap.WAPProtocol"] = {"waptop": c["waptop"]}
-                cfg_cache[key] = drv.make_config("/nonexistent-root", ov)
-            config = cfg_cache[key]
-            rfile = io.BytesIO(drv.s2b(c["data"]))
-            wfile = drv.KeepBytesIO()
-            req = (drv.MockSSLRequest if c["tls"] else drv.MockRequest)(rfile, wfile)
-            h = drv.Handler(req, ("10.1.2.3", "4"), drv.FakeServer(config))
-            try:
-                line = rfile.readline().decode(errors="surrogateescape")
-                p = ProtocolMultiplexer.getProtocol(line, h.server, h, rfile, wfile, config)
-                out.append({"cls": type(p).__name__ if p is not None else None, "exc": None})
-            except Exception as e:  # noqa
-                out.append({"cls": None, "exc": type(e).__name__})
+                    config.set("protocols.wap.WAPProtocol", "waptop", c["waptop"])
+                rfile = io.BytesIO(drv.s2b(c["data"]))
+                wfile = drv.KeepBytesIO()
+                req = (drv.MockSSLRequest if c["tls"] else drv.MockRequest)(rfile, wfile)
+                h = drv.Handler(req, ("10.1.2.3", "4"), drv.FakeServer(config))
+                seen.clear()
+                try:
+                    h.handle()
+                    out.append({"cls": None, "exc": "NoDetection", "line": None})
+                except _Stop:
+                    p = seen.get("p")
+                    out.append({"cls": type(p).__name__ if p is not None else None, "exc": None, "line": seen.get("line")})
+                except Exception as e:  # noqa
+                    out.append({"cls": None, "exc": type(e).__name__, "line": None})
+        finally:
+            pserver.ProtocolMultiplexer.getProtocol = real_get
         return out
 
     def op_sniff(job):
